@@ -5,7 +5,7 @@ LEVEL_TEXT = ('exploration (bounded): the run-time contract "returns the DOM cla
               'is evaluated on the real parseString / parseStyle / CSSParser.parseString for every input of nine enumerated domains; no statement is made about inputs outside them')
 LEVEL_NOTE = ('bound: all concatenations of <= 3 (quick) / <= 4 (thorough) snippets of a 56-snippet token alphabet as sheet and as style attribute (the other three parseComments x validate '
               'settings one snippet shorter); truncations of sheets/*.css at token starts in windows of <= 2000 characters (quick: a stride); ( [ { and function nesting to depth 100 '
-              'and width sweeps to 1600 with a doubling time check, runs of up to 8192 characters or escapes inside single tokens (strings, url(, comments - closed and cut off -, identifiers, numbers) '
+              'and width sweeps to 1600 with a doubling time check, runs of up to 8192 characters or escapes inside single tokens (strings, url(, comments - closed and cut off -, identifiers, numbers unsigned and with either sign) '
               'with a per-input CPU budget; constructed byte inputs (BOM / @charset / override, 12 encodings); a fixed list of fetchers and @import graphs; 83 sub-parser positions x short '
               'token sequences of a 167-snippet extended alphabet (escaped structural characters, margin-box at-keywords, ...); colour functions x short argument lists; 35 at-keywords x 14 '
               'continuations x 19 block positions; @charset naming every codec of the running Python. '
